@@ -473,6 +473,13 @@ func (s *Store[H]) setHead(ctx context.Context, write datastore.Write, to uint64
 	if err := writeHeaderHashTo(ctx, write, newHead, headKey); err != nil {
 		return fmt.Errorf("writing headKey in batch: %w", err)
 	}
+	// the tail may have receded since the last flush: keep its persisted pointer in step,
+	// as the header it pointed to may be among the deleted ones
+	if tail := s.tailHeader.Load(); tail != nil {
+		if err := writeHeaderHashTo(ctx, write, *tail, tailKey); err != nil {
+			return fmt.Errorf("writing tailKey in batch: %w", err)
+		}
+	}
 
 	return nil
 }
